@@ -172,6 +172,7 @@ func prepareModules() error {
 
 func startModules() error {
 	var rep *report
+	var firstErr error
 	reports := make(chan *report)
 	execCnt := 0
 	reportCnt := 0
@@ -179,8 +180,11 @@ func startModules() error {
 	for {
 		waiting := 0
 
-		// find modules to exec
+		// find modules to exec, but do not start anything new after a failure
 		for _, m := range modules {
+			if firstErr != nil {
+				break
+			}
 			switch m.readyToStart() {
 			case statusNothingToDo:
 			case statusWaiting:
@@ -201,14 +205,23 @@ func startModules() error {
 		if reportCnt < execCnt {
 			// wait for reports
 			rep = <-reports
+			reportCnt++
 			if rep.err != nil {
 				rep.module.NewErrorMessage("start module", rep.err).Report()
-				return fmt.Errorf("modules: could not start module %s: %w", rep.module.Name, rep.err)
+				// Do not return while other modules are still starting: they
+				// would come online behind the back of the caller and a
+				// following shutdown could miss them.
+				if firstErr == nil {
+					firstErr = fmt.Errorf("modules: could not start module %s: %w", rep.module.Name, rep.err)
+				}
+				continue
 			}
-			reportCnt++
 			log.Infof("modules: started %s", rep.module.Name)
 		} else {
 			// finished
+			if firstErr != nil {
+				return firstErr
+			}
 			if waiting > 0 {
 				// check for dep loop
 				return fmt.Errorf("modules: dependency loop detected, cannot continue")
